@@ -70,6 +70,14 @@ def run(ctx):
     samples = []
     if ctx.replay:
         events = vf.read_ndjson(ctx.replay)
+        if events and events[0]["ev"] == "bulk":   # a bulk scenario is replayed by running it again at that size
+            bpath = os.path.join(ctx.scratch, "c12-bulk.ndjson")
+            ctx.run_bin("unit-verif", ["c12bulk", bpath, str(events[0]["max"])], timeout=600)
+            bmon = ctx.validate("C12B_Mon", "C12B_mon.cfg", bpath, name="bulk")
+            for v in bmon["viols"]:
+                ctx.report(v["why"], replay_src=bpath, tag="bulk", key=v["why"])
+            ctx.cov.update({"states": states, "transitions": trans, "traces_validated_against_impl": 1, "samples": vf.read_ndjson(bpath)[:1]})
+            return
         mx = [e for e in events if e["ev"] == "start"][0]["max"]
         check_history(ctx, ctx.replay, events, mx, "replay")
         ctx.cov.update({"states": states, "transitions": trans, "traces_validated_against_impl": 1, "samples": events[:3]})
@@ -83,6 +91,23 @@ def run(ctx):
         samples.append([{k: e[k] for k in e if k != "seq"} for e in events[1:6]])
         impl_ok = check_history(ctx, tpath, events, mx, "m%d" % mx) and impl_ok
         ctx.log("max=%d: %d events validated" % (mx, len(events)))
+    # the token rule at configured sizes (sequential bulk scenarios), judged by C12B_Mon
+    bpath = os.path.join(ctx.scratch, "c12-bulk.ndjson")
+    sizes = ["1", "2", "64", "1000", "8192", "8193", "20000"] if quick else ["1", "2", "3", "64", "255", "256", "1000", "4096", "8192", "8193", "20000", "65536", "70000"]
+    ctx.run_bin("unit-verif", ["c12bulk", bpath] + sizes, timeout=1200)
+    bev = vf.read_ndjson(bpath)
+    if len(bev) == 0:
+        raise vf.Inconclusive("the bulk driver recorded nothing")
+    bmon = ctx.validate("C12B_Mon", "C12B_mon.cfg", bpath, name="bulk")
+    if bmon["hwm"] < bmon["total"]:
+        raise vf.Inconclusive("C12B_Mon stopped at line %d of %d" % (bmon["hwm"], bmon["total"]))
+    for v in bmon["viols"]:
+        e = bev[v["l"] - 1]
+        rp = os.path.join(ctx.scratch, "viol-bulk-%d.ndjson" % e["max"])
+        vf.write_ndjson(rp, [e])
+        ctx.report("%s (tokens=%d: %s)" % (v["why"], e["max"], {k: e[k] for k in e if k not in ("seq", "ev")}), replay_src=rp, tag="bulk", key=v["why"])
+    total_events += len(bev)
+    ctx.log("bulk scenarios: %d sizes, %d violations" % (len(bev), len(bmon["viols"])))
     ctx.cov.update({
         "states": states, "transitions": trans, "exhaustive": True,
         "traces_validated_against_impl": 3 * nsc,
